@@ -48,6 +48,9 @@ type Sched struct {
 	Points     int
 	Trace      []string
 	KeepTrace  bool
+	// AllDev: every scheduling/select choice (not only preemptions) costs one deviation from the default schedule
+	// (lowest runnable thread id first). Used for long protocol runs where free context switches alone blow up.
+	AllDev bool
 	onPoint    func()
 }
 
@@ -91,7 +94,14 @@ func (s *Sched) threadMain(t *thread, f func()) {
 	<-t.wake
 	defer func() {
 		if r := recover(); r != nil {
-			s.Panics = append(s.Panics, fmt.Sprintf("thread %s: %v\n%s", t.name, r, trim(string(debug.Stack()))))
+			msg := fmt.Sprint(r)
+			if strings.HasPrefix(msg, "harness error:") || strings.HasPrefix(msg, "mcrt harness error:") {
+				if s.HarnessErr == "" {
+					s.HarnessErr = msg // the explorer's own replay divergence etc.: never a property violation
+				}
+			} else {
+				s.Panics = append(s.Panics, fmt.Sprintf("thread %s: %v\n%s", t.name, r, trim(string(debug.Stack()))))
+			}
 		}
 		s.exit(t)
 	}()
@@ -146,7 +156,7 @@ func (s *Sched) dispatch() *thread {
 	}
 	c := 0
 	if len(en) > 1 {
-		if en[0] == s.cur {
+		if en[0] == s.cur || s.AllDev {
 			c = s.ch.ChooseDev("sched", len(en)) // switching away from a runnable thread is a preemption
 		} else {
 			c = s.ch.Choose("sched", len(en))
@@ -367,7 +377,12 @@ func Select(hasDefault bool, cases ...Case) int {
 		}
 		return -1
 	}
-	i := rdy[Choose("select", len(rdy))]
+	var i int
+	if s.AllDev {
+		i = rdy[ChooseDev("select", len(rdy))]
+	} else {
+		i = rdy[Choose("select", len(rdy))]
+	}
 	c := cases[i]
 	if c.send {
 		if !c.st.closed {
